@@ -7,7 +7,7 @@ use crate::model::MVal;
 use crate::reffilter::*;
 use crate::shrink::shape;
 use crate::util::{panic_sig, with_fuel};
-use libhaystack::filter::nodes::{And, CmpOp, Or, Term};
+use libhaystack::filter::nodes::{And, Cmp, CmpOp, Has, IsA, Missing, Or, Parens, Relation, Term, Visitable, Visitor, WildcardEq};
 use libhaystack::filter::path::Path;
 use libhaystack::filter::Filter;
 use serde_json::json;
@@ -44,6 +44,71 @@ pub fn obs_and(a: &And) -> FAnd {
 }
 pub fn obs_or(o: &Or) -> FOr {
     FOr(o.ands.iter().map(obs_and).collect())
+}
+
+/// The same tree observed through the library's Visitor protocol (accept_visitor dispatch) instead of the public
+/// fields: every node must be handed to the visit method of its own kind.
+#[derive(Default)]
+struct VisitObs {
+    or_out: Option<FOr>,
+    and_out: Option<FAnd>,
+    term_out: Option<FTerm>,
+    calls: usize,
+}
+impl Visitor for VisitObs {
+    fn visit_cond_or(&mut self, node: &Or) {
+        self.calls += 1;
+        let mut ands = Vec::new();
+        for a in &node.ands {
+            a.accept_visitor(self);
+            ands.extend(self.and_out.take());
+        }
+        self.or_out = Some(FOr(ands));
+    }
+    fn visit_cond_and(&mut self, node: &And) {
+        self.calls += 1;
+        let mut terms = Vec::new();
+        for t in &node.terms {
+            t.accept_visitor(self);
+            terms.extend(self.term_out.take());
+        }
+        self.and_out = Some(FAnd(terms));
+    }
+    fn visit_parens(&mut self, node: &Parens) {
+        self.calls += 1;
+        node.or.accept_visitor(self);
+        self.term_out = self.or_out.take().map(FTerm::Parens);
+    }
+    fn visit_has(&mut self, node: &Has) {
+        self.calls += 1;
+        self.term_out = Some(FTerm::Has(obs_path(&node.path)));
+    }
+    fn visit_missing(&mut self, node: &Missing) {
+        self.calls += 1;
+        self.term_out = Some(FTerm::Missing(obs_path(&node.path)));
+    }
+    fn visit_is_a(&mut self, node: &IsA) {
+        self.calls += 1;
+        self.term_out = Some(FTerm::IsA(node.symbol.value.clone()));
+    }
+    fn visit_wildcard_equals(&mut self, node: &WildcardEq) {
+        self.calls += 1;
+        self.term_out = Some(obs_term(&Term::WildcardEq(node.clone())));
+    }
+    fn visit_relation(&mut self, node: &Relation) {
+        self.calls += 1;
+        self.term_out = Some(obs_term(&Term::Relation(node.clone())));
+    }
+    fn visit_cmp(&mut self, node: &Cmp) {
+        self.calls += 1;
+        self.term_out = Some(obs_term(&Term::Cmp(node.clone())));
+    }
+}
+
+pub fn obs_via_visitor(f: &Filter) -> Option<FOr> {
+    let mut v = VisitObs::default();
+    f.accept_visitor(&mut v);
+    v.or_out
 }
 
 /// drop the don't-care components (display name of the Ref operand of `*==`)
@@ -162,7 +227,11 @@ pub fn check_text_to_tree(f: &FOr, text: &str) -> Result<Filter, (String, String
         Ok(Ok(parsed)) => {
             let got = obs_or(&parsed.or);
             if normalize(&got) == normalize(f) {
-                Ok(parsed)
+                match crate::util::catch(|| obs_via_visitor(&parsed)) {
+                    Ok(Some(v)) if v == got => Ok(parsed),
+                    Ok(v) => Err(("visitor-wrong-tree".into(), format!("the Visitor protocol walks a different tree: {} vs the fields' {}", truncate(&format!("{v:?}"), 300), truncate(&format!("{got:?}"), 300)))),
+                    Err(p) => Err((format!("visitor-{}", panic_sig(&p)), p.msg)),
+                }
             } else {
                 Err(("wrong-tree".into(), format!("parsed tree {} differs from the tree the text was printed from {}", truncate(&format!("{:?}", got), 400), truncate(&format!("{:?}", f), 400))))
             }
